@@ -113,6 +113,7 @@ func VfC18_Handle() {
 //
 //vf:sched
 //vf:switches quick=2 thorough=3
+//vf:paths quick=800000 thorough=8000000
 //vf:unwind 16
 //vf:bound events 3 user events, timers fire at any scheduling decision
 //vf:nonative
